@@ -4,15 +4,15 @@
    and it never contains a stack-imbalance line; by the refinement the same holds of the machine. *)
 From Coq Require Import List Arith Bool Lia.
 Import ListNotations.
-From Cb Require Import C06.Model C06.Prims C06.Refine.
+From Cb Require Import C06.Model C06.Prims C06.Refine C06.Shape.
 
-(* two-stack bracket checker: (pending defers, live objects), innermost first *)
-Fixpoint chk2 (sd so : list nat) (t : list event) : option (list nat * list nat) :=
+(* two-stack bracket checker: (pending defers, live objects (type, identity)), innermost first *)
+Fixpoint chk2 (sd : list nat) (so : list (ty * nat)) (t : list event) : option (list nat * list (ty * nat)) :=
   match t with
   | [] => Some (sd, so)
-  | ECtor k :: r => chk2 sd (k :: so) r
-  | EDtor k :: r => match so with
-                    | k' :: so' => if Nat.eqb k k' then chk2 sd so' r else None
+  | ECtor c k :: r => chk2 sd ((c, k) :: so) r
+  | EDtor c k :: r => match so with
+                    | (c', k') :: so' => if ty_eqb c c' && Nat.eqb k k' then chk2 sd so' r else None
                     | [] => None
                     end
   | EReg k :: r => chk2 (k :: sd) so r
@@ -28,42 +28,51 @@ Lemma chk2_app : forall a b sd so,
 Proof.
   induction a as [|e a IH]; intros; simpl; auto.
   destruct e; auto.
-  - destruct so as [|k' so']; auto. destruct (k =? k'); auto.
+  - destruct so as [|[c' k'] so']; auto. destruct (ty_eqb t c' && (k =? k')); auto.
   - destruct sd as [|k' sd']; auto. destruct (k =? k'); auto.
 Qed.
 
-Lemma chk2_dtors : forall m sd so, chk2 sd (m ++ so) (map EDtor m) = Some (sd, so).
-Proof. induction m; intros; simpl; auto. now rewrite Nat.eqb_refl. Qed.
+Lemma ty_eqb_refl : forall c, ty_eqb c c = true.
+Proof. destruct c; reflexivity. Qed.
+
+Lemma chk2_dtors : forall m sd so, chk2 sd (m ++ so) (map dtor_ev m) = Some (sd, so).
+Proof. induction m as [|[c k] m IH]; intros; simpl; auto. rewrite ty_eqb_refl, Nat.eqb_refl; simpl; apply IH. Qed.
+
+Lemma chk2_ctors : forall m sd so, chk2 sd so (map ctor_ev m) = Some (sd, rev m ++ so).
+Proof.
+  induction m as [|[c k] m IH]; intros; simpl; auto.
+  rewrite IH. now rewrite <- app_assoc.
+Qed.
 
 Lemma chk2_defers : forall m sd so, chk2 (m ++ sd) so (map EDefer m) = Some (sd, so).
 Proof. induction m; intros; simpl; auto. now rewrite Nat.eqb_refl. Qed.
 
 Lemma chk2_close : forall ND NT sd so,
-  chk2 (rev ND ++ sd) (rev NT ++ so) (map EDefer (rev ND) ++ map EDtor (rev NT)) = Some (sd, so).
+  chk2 (rev ND ++ sd) (rev NT ++ so) (map EDefer (rev ND) ++ map dtor_ev (rev NT)) = Some (sd, so).
 Proof. intros. rewrite chk2_app, chk2_defers. apply chk2_dtors. Qed.
 
 Section Spec.
 Variable p : prog.
 
-Definition Qs (fuel : nat) : Prop := forall it s D T o t D' T',
-  sexec fuel p it s D T = Some (o, t, D', T') ->
-  forall sd so, chk2 sd so t = Some (rev (regD s) ++ sd, rev (regT s) ++ so).
+Definition Qs (fuel : nat) : Prop := forall n it s D T o t D' T',
+  sexec fuel p n it s D T = Some (o, t, D', T') ->
+  forall sd so, chk2 sd so t = Some (rev (regD n s) ++ sd, rev (regT n s) ++ so).
 
-Definition Qb (fuel : nat) : Prop := forall it b D T o t D' T',
-  sexec_b fuel p it b D T = Some (o, t, D', T') ->
+Definition Qb (fuel : nat) : Prop := forall n it b D T o t D' T',
+  sexec_b fuel p n it b D T = Some (o, t, D', T') ->
   exists ND NT, D' = D ++ ND /\ T' = T ++ NT /\
                 forall sd so, chk2 sd so t = Some (rev ND ++ sd, rev NT ++ so).
 
-Definition Ql (fuel : nat) : Prop := forall n i b o t,
-  sloop fuel p n i b = Some (o, t) -> forall sd so, chk2 sd so t = Some (sd, so).
+Definition Ql (fuel : nat) : Prop := forall n m i b o t,
+  sloop fuel p n m i b = Some (o, t) -> forall sd so, chk2 sd so t = Some (sd, so).
 
-Lemma scope_chk : forall f, Qb f -> forall it b o t,
-  scope_close (sexec_b f p it b [] []) = Some (o, t) -> forall sd so, chk2 sd so t = Some (sd, so).
+Lemma scope_chk : forall f, Qb f -> forall n it b o t,
+  scope_close (sexec_b f p n it b [] []) = Some (o, t) -> forall sd so, chk2 sd so t = Some (sd, so).
 Proof.
-  intros f HQ it b o t E sd so.
-  destruct (sexec_b f p it b [] []) as [[[[o1 t1] D1] T1]|] eqn:EB; simpl in E; [|discriminate].
+  intros f HQ n it b o t E sd so.
+  destruct (sexec_b f p n it b [] []) as [[[[o1 t1] D1] T1]|] eqn:EB; simpl in E; [|discriminate].
   inversion E; subst; clear E.
-  destruct (HQ _ _ _ _ _ _ _ _ EB) as (ND & NT & -> & -> & H). simpl.
+  destruct (HQ _ _ _ _ _ _ _ _ _ EB) as (ND & NT & -> & -> & H). simpl.
   rewrite chk2_app, H. apply chk2_close.
 Qed.
 
@@ -72,165 +81,93 @@ Proof.
   induction fuel as [|f (IHs & IHb & IHl)].
   - repeat split; red; intros; simpl in *; discriminate.
   - split; [|split].
-    + red; intros it s D T o t D' T' E sd so.
+    + red; intros n it s D T o t D' T' E sd so.
       destruct s; simpl in E |- *.
+      * inversion E; subst. apply chk2_ctors.
       * inversion E; subst. reflexivity.
       * inversion E; subst. reflexivity.
-      * inversion E; subst. reflexivity.
-      * destruct (scope_close (sexec_b f p it b [] [])) as [[o1 t1]|] eqn:EC; simpl in E; [|discriminate].
+      * destruct (scope_close (sexec_b f p n it b [] [])) as [[o1 t1]|] eqn:EC; simpl in E; [|discriminate].
         inversion E; subst. eapply scope_chk; eauto.
-      * destruct (cond_true it c).
-        -- destruct (scope_close (sexec_b f p it t0 [] [])) as [[o1 t1]|] eqn:EC; simpl in E; [|discriminate].
+      * destruct (cond_true n it c).
+        -- destruct (scope_close (sexec_b f p n it t0 [] [])) as [[o1 t1]|] eqn:EC; simpl in E; [|discriminate].
            inversion E; subst. eapply scope_chk; eauto.
         -- destruct e as [|s' r'].
            ++ inversion E; subst. reflexivity.
-           ++ destruct (scope_close (sexec_b f p it (BCons s' r') [] [])) as [[o1 t1]|] eqn:EC; simpl in E; [|discriminate].
+           ++ destruct (scope_close (sexec_b f p n it (BCons s' r') [] [])) as [[o1 t1]|] eqn:EC; simpl in E; [|discriminate].
               inversion E; subst. eapply scope_chk; eauto.
-      * destruct (sloop f p n 0 b) as [[o1 t1]|] eqn:EL; [|discriminate].
+      * destruct (sloop f p n n0 0 b) as [[o1 t1]|] eqn:EL; [|discriminate].
         assert (t = t1) by (destruct o1; inversion E; reflexivity). subst.
         eapply IHl; eauto.
-      * destruct (scope_close (sexec_b f p None (body p f0) [] [])) as [[o1 t1]|] eqn:EC; [|discriminate].
+      * destruct (scope_close (sexec_b f p (Init.Nat.pred n) None (body p f0) [] [])) as [[o1 t1]|] eqn:EC; [|discriminate].
         inversion E; subst. eapply scope_chk; eauto.
       * inversion E; subst. reflexivity.
       * inversion E; subst. reflexivity.
       * inversion E; subst. reflexivity.
-    + red; intros it b D T o t D' T' E.
+    + red; intros n it b D T o t D' T' E.
       destruct b as [|s r]; simpl in E.
       * inversion E; subst. exists [], []. rewrite !app_nil_r. auto.
-      * destruct (sexec f p it s D T) as [[[[o1 t1] D1] T1]|] eqn:ES; [|discriminate].
-        pose proof (IHs _ _ _ _ _ _ _ _ ES) as H1.
+      * destruct (sexec f p n it s D T) as [[[[o1 t1] D1] T1]|] eqn:ES; [|discriminate].
+        pose proof (IHs _ _ _ _ _ _ _ _ _ ES) as H1.
         apply sexec_DT in ES. destruct ES as [-> ->].
         destruct o1.
-        -- destruct (sexec_b f p it r (D ++ regD s) (T ++ regT s)) as [[[[o2 t2] D2] T2]|] eqn:EB; [|discriminate].
+        -- destruct (sexec_b f p n it r (D ++ regD n s) (T ++ regT n s)) as [[[[o2 t2] D2] T2]|] eqn:EB; [|discriminate].
            inversion E; subst; clear E.
-           destruct (IHb _ _ _ _ _ _ _ _ EB) as (ND & NT & -> & -> & H2).
-           exists (regD s ++ ND), (regT s ++ NT). rewrite !app_assoc. split; [reflexivity|]. split; [reflexivity|].
+           destruct (IHb _ _ _ _ _ _ _ _ _ EB) as (ND & NT & -> & -> & H2).
+           exists (regD n s ++ ND), (regT n s ++ NT). rewrite !app_assoc. split; [reflexivity|]. split; [reflexivity|].
            intros sd so. rewrite chk2_app, H1, H2, !rev_app_distr, !app_assoc. reflexivity.
-        -- inversion E; subst. exists (regD s), (regT s). auto.
-        -- inversion E; subst. exists (regD s), (regT s). auto.
-        -- inversion E; subst. exists (regD s), (regT s). auto.
-    + red; intros n i b o t E sd so. simpl in E.
-      destruct (n <=? i); [inversion E; subst; reflexivity|].
-      destruct (scope_close (sexec_b f p (Some i) b [] [])) as [[o1 t1]|] eqn:EC; [|discriminate].
-      pose proof (scope_chk f IHb _ _ _ _ EC) as H1.
+        -- inversion E; subst. exists (regD n s), (regT n s). auto.
+        -- inversion E; subst. exists (regD n s), (regT n s). auto.
+        -- inversion E; subst. exists (regD n s), (regT n s). auto.
+    + red; intros n m i b o t E sd so. simpl in E.
+      destruct (m <=? i); [inversion E; subst; reflexivity|].
+      destruct (scope_close (sexec_b f p n (Some i) b [] [])) as [[o1 t1]|] eqn:EC; [|discriminate].
+      pose proof (scope_chk f IHb _ _ _ _ _ EC) as H1.
       destruct o1.
-      * destruct (sloop f p n (S i) b) as [[o2 t2]|] eqn:EL; [|discriminate].
+      * destruct (sloop f p n m (S i) b) as [[o2 t2]|] eqn:EL; [|discriminate].
         inversion E; subst. rewrite chk2_app, H1. eapply IHl; eauto.
       * inversion E; subst. apply H1.
       * inversion E; subst. apply H1.
-      * destruct (sloop f p n (S i) b) as [[o2 t2]|] eqn:EL; [|discriminate].
+      * destruct (sloop f p n m (S i) b) as [[o2 t2]|] eqn:EL; [|discriminate].
         inversion E; subst. rewrite chk2_app, H1. eapply IHl; eauto.
 Qed.
 
-Lemma srun_brackets : forall fuel t, srun fuel p = Some (true, t) -> chk2 [] [] t = Some ([], []).
+Lemma srun_brackets : forall fuel n0 t, srun fuel p n0 = Some (true, t) -> chk2 [] [] t = Some ([], []).
 Proof.
-  intros fuel t E. unfold srun in E.
-  destruct (sexec_b fuel p None (body p 0) [] []) as [[[[o1 t1] D1] T1]|] eqn:EB; [|discriminate].
+  intros fuel n0 t E. unfold srun in E.
+  destruct (sexec_b fuel p n0 None (body p 0) [] []) as [[[[o1 t1] D1] T1]|] eqn:EB; [|discriminate].
   destruct (spec_all fuel) as (_ & HQ & _).
-  destruct (HQ _ _ _ _ _ _ _ _ EB) as (ND & NT & -> & -> & H). simpl in E.
-  assert (t = t1 ++ map EDefer (rev ND) ++ map EDtor (rev NT)) by (destruct o1; inversion E; reflexivity).
+  destruct (HQ _ _ _ _ _ _ _ _ _ EB) as (ND & NT & -> & -> & H). simpl in E.
+  assert (t = t1 ++ map EDefer (rev ND) ++ map dtor_ev (rev NT)) by (destruct o1; inversion E; reflexivity).
   subst. rewrite chk2_app, H.
   apply (chk2_close ND NT [] []).
 Qed.
-
-(* ---- the Spec transcript never contains a hook line *)
-Definition not_imb (e : event) : Prop := match e with EImb _ _ _ _ _ _ _ => False | _ => True end.
-
-Lemma Forall_map_defer : forall l, Forall not_imb (map EDefer l).
-Proof. induction l; simpl; constructor; simpl; auto. Qed.
-Lemma Forall_map_dtor : forall l, Forall not_imb (map EDtor l).
-Proof. induction l; simpl; constructor; simpl; auto. Qed.
-
-Lemma scope_noimb : forall (r : option sres) o t,
-  (forall o1 t1 D1 T1, r = Some (o1, t1, D1, T1) -> Forall not_imb t1) ->
-  scope_close r = Some (o, t) -> Forall not_imb t.
-Proof.
-  intros [[[[o1 t1] D1] T1]|] o t H E; simpl in E; [|discriminate].
-  inversion E; subst. repeat (apply Forall_app; split); eauto using Forall_map_defer, Forall_map_dtor.
-Qed.
-
-Lemma spec_noimb : forall fuel,
-  (forall it s D T o t D' T', sexec fuel p it s D T = Some (o, t, D', T') -> Forall not_imb t) /\
-  (forall it b D T o t D' T', sexec_b fuel p it b D T = Some (o, t, D', T') -> Forall not_imb t) /\
-  (forall n i b o t, sloop fuel p n i b = Some (o, t) -> Forall not_imb t).
-Proof.
-  induction fuel as [|f (IHs & IHb & IHl)].
-  - repeat split; intros; simpl in *; discriminate.
-  - assert (SC : forall it b o t, scope_close (sexec_b f p it b [] []) = Some (o, t) -> Forall not_imb t).
-    { intros it b o t E. eapply scope_noimb; [|exact E]. intros; eapply IHb; eauto. }
-    split; [|split].
-    + intros it s D T o t D' T' E. destruct s; simpl in E.
-      * inversion E; subst. repeat constructor.
-      * inversion E; subst. repeat constructor.
-      * inversion E; subst. repeat constructor.
-      * destruct (scope_close (sexec_b f p it b [] [])) as [[o1 t1]|] eqn:EC; simpl in E; [|discriminate].
-        inversion E; subst. eauto.
-      * destruct (cond_true it c).
-        -- destruct (scope_close (sexec_b f p it t0 [] [])) as [[o1 t1]|] eqn:EC; simpl in E; [|discriminate].
-           inversion E; subst. eauto.
-        -- destruct e as [|s' r'].
-           ++ inversion E; subst. constructor.
-           ++ destruct (scope_close (sexec_b f p it (BCons s' r') [] [])) as [[o1 t1]|] eqn:EC; simpl in E; [|discriminate].
-              inversion E; subst. eauto.
-      * destruct (sloop f p n 0 b) as [[o1 t1]|] eqn:EL; [|discriminate].
-        assert (t = t1) by (destruct o1; inversion E; reflexivity). subst. eauto.
-      * destruct (scope_close (sexec_b f p None (body p f0) [] [])) as [[o1 t1]|] eqn:EC; [|discriminate].
-        inversion E; subst. eauto.
-      * inversion E; subst. constructor.
-      * inversion E; subst. constructor.
-      * inversion E; subst. constructor.
-    + intros it b D T o t D' T' E. destruct b as [|s r]; simpl in E.
-      * inversion E; subst. constructor.
-      * destruct (sexec f p it s D T) as [[[[o1 t1] D1] T1]|] eqn:ES; [|discriminate].
-        pose proof (IHs _ _ _ _ _ _ _ _ ES) as H1.
-        destruct o1; try (inversion E; subst; assumption).
-        destruct (sexec_b f p it r D1 T1) as [[[[o2 t2] D2] T2]|] eqn:EB; [|discriminate].
-        inversion E; subst. apply Forall_app; split; eauto.
-    + intros n i b o t E. simpl in E.
-      destruct (n <=? i); [inversion E; subst; constructor|].
-      destruct (scope_close (sexec_b f p (Some i) b [] [])) as [[o1 t1]|] eqn:EC; [|discriminate].
-      pose proof (SC _ _ _ _ EC) as H1.
-      destruct o1; try (inversion E; subst; assumption).
-      * destruct (sloop f p n (S i) b) as [[o2 t2]|] eqn:EL; [|discriminate].
-        inversion E; subst. apply Forall_app; split; eauto.
-      * destruct (sloop f p n (S i) b) as [[o2 t2]|] eqn:EL; [|discriminate].
-        inversion E; subst. apply Forall_app; split; eauto.
-Qed.
-
-Lemma srun_noimb : forall fuel ok t, srun fuel p = Some (ok, t) -> Forall not_imb t.
-Proof.
-  intros fuel ok t E. unfold srun in E.
-  destruct (sexec_b fuel p None (body p 0) [] []) as [[[[o1 t1] D1] T1]|] eqn:EB; [|discriminate].
-  destruct (spec_noimb fuel) as (_ & HB & _). pose proof (HB _ _ _ _ _ _ _ _ EB) as H1.
-  destruct o1; inversion E; subst; auto;
-    repeat (apply Forall_app; split); auto using Forall_map_defer, Forall_map_dtor.
-Qed.
 End Spec.
 
-Lemma scope_exit_order : forall fuel p it b o t,
-  scope_close (sexec_b fuel p it b [] []) = Some (o, t) ->
-  exists t0 D T, sexec_b fuel p it b [] [] = Some (o, t0, D, T) /\
-                 t = t0 ++ map EDefer (rev D) ++ map EDtor (rev T).
+Lemma scope_exit_order : forall fuel p n it b o t,
+  scope_close (sexec_b fuel p n it b [] []) = Some (o, t) ->
+  exists t0 D T, sexec_b fuel p n it b [] [] = Some (o, t0, D, T) /\
+                 t = t0 ++ map EDefer (rev D) ++ map dtor_ev (rev T).
 Proof.
-  intros fuel p it b o t E.
-  destruct (sexec_b fuel p it b [] []) as [[[[o1 t1] D1] T1]|]; simpl in E; [|discriminate].
+  intros fuel p n it b o t E.
+  destruct (sexec_b fuel p n it b [] []) as [[[[o1 t1] D1] T1]|]; simpl in E; [|discriminate].
   inversion E; subst. eauto.
 Qed.
 
-(* ---- transfer to the Mech model: every program *)
-Lemma mrun_complete : forall p fuel st, mrun fuel p = Some (true, st) ->
-  srun fuel p = Some (true, tr st) /\ dfs st = [] /\ dts st = [[]] /\ scd st = 1.
+(* ---- transfer to the Mech model: every program without re-declared live names *)
+Lemma mrun_complete : forall p, wf_prog p = true -> forall fuel n0 st, mrun fuel p n0 = Some (true, st) ->
+  srun fuel p n0 = Some (true, tr st) /\ dfs st = [] /\ dts st = [[]] /\ vars st = [[]].
 Proof.
-  intros p fuel st E. pose proof (run_ref p fuel) as R.
-  destruct (srun fuel p) as [[[|] t]|].
+  intros p W fuel n0 st E. pose proof (run_ref p W fuel n0) as R.
+  destruct (srun fuel p n0) as [[[|] t]|].
   - rewrite R in E. inversion E; subst; simpl. auto.
   - destruct R as (st' & E' & _). rewrite E' in E. discriminate.
   - rewrite R in E. discriminate.
 Qed.
 
-Lemma mrun_brackets : forall p fuel st, mrun fuel p = Some (true, st) ->
-  chk2 [] [] (tr st) = Some ([], []) /\ Forall not_imb (tr st) /\ dfs st = [] /\ dts st = [[]] /\ scd st = 1.
+Lemma mrun_brackets : forall p, wf_prog p = true -> forall fuel n0 st, mrun fuel p n0 = Some (true, st) ->
+  chk2 [] [] (tr st) = Some ([], []) /\ Forall not_imb (tr st) /\ dfs st = [] /\ dts st = [[]] /\ vars st = [[]].
 Proof.
-  intros p fuel st E. destruct (mrun_complete p fuel st E) as (S & A & B & C).
-  split; [eapply srun_brackets; eauto|]. split; [eapply srun_noimb; eauto|]. auto.
+  intros p W fuel n0 st E. destruct (mrun_complete p W fuel n0 st E) as (S & A & B & C).
+  split; [eapply srun_brackets; eauto|]. split; [|auto].
+  eapply run_balanced; eauto.
 Qed.
